@@ -1,26 +1,24 @@
 #!/bin/sh
 # usage: seeded_eval.sh <worktree-or-seeded-dir> <check ids...>
-# 1. demo must FAIL on a scratch copy with the patch and PASS on /repo's tree
-# 2. apply patch to /repo, run the given quick checks, undo. Prints one line per check.
+# 1. demo must FAIL on a scratch copy of /repo with the patch and PASS on /repo's tree
+# 2. run the given quick checks against the patched scratch copy (VERIF_REPO), one line per check.
+# (Equivalent to `git -C /repo apply` + checks + `git -C /repo checkout -- .`, but /repo is never
+#  touched, so sub-agents and background runs that read /repo are not disturbed.)
 SRC="$1"; shift
 PATCH="$SRC/patch.diff"; DEMO="$SRC/demo.py"
 [ -f "$PATCH" ] || { echo "no patch in $SRC"; exit 2; }
-git -C /repo diff --quiet || { echo "/repo has uncommitted changes"; exit 2; }
 D=$(mktemp -d /tmp/seval.XXXXXX)
-cp -r /repo/src "$D/src"
+cp -r /repo/src "$D/src"; mkdir -p "$D/tests"; cp -r /repo/tests/data "$D/tests/data"
 (cd "$D" && patch -p1 -s < "$PATCH") || { echo "patch does not apply"; rm -rf "$D"; exit 2; }
 if [ -f "$DEMO" ]; then
-  (cd "$D" && PYTHONPATH="$D/src" timeout 600 /venv/bin/python "$DEMO" >/dev/null 2>&1); rc_mod=$?
-  (cd "$D" && PYTHONPATH=/repo/src timeout 600 /venv/bin/python "$DEMO" >/dev/null 2>&1); rc_orig=$?
+  (cd "$D" && PYTHONPATH="$D/src" timeout 900 /venv/bin/python "$DEMO" >/dev/null 2>&1); rc_mod=$?
+  (cd "$D" && PYTHONPATH=/repo/src timeout 900 /venv/bin/python "$DEMO" >/dev/null 2>&1); rc_orig=$?
   echo "demo: modified rc=$rc_mod (want !=0), original rc=$rc_orig (want 0)"
 fi
-rm -rf "$D"
-git -C /repo apply "$PATCH" || { echo "git apply failed"; exit 2; }
 cd /verif
 for c in "$@"; do
-  out=$(VERIF_EVIDENCE_DIR=evidence-scratch ./check "$c" 2>&1); rc=$?
+  out=$(VERIF_REPO="$D" ./check "$c" 2>&1); rc=$?
   clauses=$(echo "$out" | grep -o "violation clause=[a-z-]*" | sort | uniq -c | tr '\n' ';')
   echo "check $c rc=$rc $clauses"
 done
-git -C /repo checkout -- .
-git -C /repo status --short | grep -v coverage
+rm -rf "$D"
